@@ -420,6 +420,7 @@ func init() {
 	ctl("rows already in the transaction cache are not warmed and stay as listed", "T-WARM", "rowsFromTransactionCacheAndDatabase|database row reconciled", "database/transaction", "Transaction", "rowsFromTransactionCacheAndDatabase", kStmt, "if err := t.Cache.Table(table).Create(rowUUID, row, false); err != nil", 0, func(orig string) string { return "if !t.Cache.Table(table).HasRow(rowUUID) {\n" + orig + "\n}" })
 	ctl("updateRow computes its update from the unmutated row again", "T-STALE", "updateRow|current row of AddOperation", "updates", "referenceTracker", "updateRow", kStmt, "model = mutated", 0, to("_ = mutated"))
 	ctl("getModel forgets the updates of earlier rounds", "T-SEEALL", "getModel|row state includes earlier rounds", "updates", "referenceTracker", "getModel", kExpr, "rt.referenceUpdates.GetModel(table, uuid)", 0, to("rt.updates.GetModel(table, uuid)"))
+	ctl("generator skips the write when the lengths agree", "GEN-SKIP", "Generate|write skipped only for identical content", "modelgen", "generator", "Generate", kExpr, "bytes.Equal(content, src)", 0, to("len(content) == len(src)"))
 	ctl("lock taken before waiting for the handlers", "L-WAIT", "handleDisconnectNotification|WaitGroup.Wait", "client", "ovsdbClient", "handleDisconnectNotification", kStmt, "o.handlerShutdown.Wait()", 0, to("o.shutdownMutex.Lock()\no.handlerShutdown.Wait()\no.shutdownMutex.Unlock()"))
 	ctl("transact accepts an empty operation list", "G-ARGS", "at least one operation", "server", "OvsdbServer", "Transact", kExpr, "len(args) < 2", 0, to("len(args) < 1"))
 	ctl("delete-by-keys special case for every column", "P-NIL-TYPEOBJ", "addMutateOperation|deref", "updates", "ModelUpdates", "addMutateOperation", kExpr, `mutation.Mutator == "delete" && column.Type == ovsdb.TypeMap && reflect.TypeOf(mutation.Value) != reflect.TypeOf(ovsdb.OvsMap{})`, 0, to(`mutation.Mutator == "delete" && reflect.TypeOf(mutation.Value) != reflect.TypeOf(ovsdb.OvsMap{})`))
